@@ -87,6 +87,14 @@ def resOut : Res AnyRes → String
   | .err => "err"
   | .panic => "panic"
 
+def udocView (d : UDoc) : String :=
+  let data := match d.data with
+    | .none => "none"
+    | .res r => "(res " ++ anyResView r ++ ")"
+    | .col l => "(col (" ++ " ".intercalate (l.map anyResView) ++ "))"
+  "(" ++ data ++ " (" ++ " ".intercalate (d.included.map anyResView) ++ ") " ++
+    (Sx.list (d.errors.map encErrorObj)).toStr ++ " " ++ (encJson (.obj d.dmeta)).toStr ++ ")"
+
 def stepUnm (args : List Sx) : String × String × Bool :=
   match args with
   | [.atom "res", sc, sk] => (resOut (unmarshalRes? (decSSchema sc) (decResSke sk)), "-", true)
@@ -99,13 +107,7 @@ def stepUnm (args : List Sx) : String × String × Bool :=
         | .panic => "panic"), "-", true)
   | [.atom "doc", sc, sk] =>
     (match unmarshalDocument (decSSchema sc) (decDocSke sk) with
-      | .ok d =>
-        let data := match d.data with
-          | .none => "none"
-          | .res r => "(res " ++ anyResView r ++ ")"
-          | .col l => "(col (" ++ " ".intercalate (l.map anyResView) ++ "))"
-        "ok (" ++ data ++ " (" ++ " ".intercalate (d.included.map anyResView) ++ ") " ++
-          (Sx.list (d.errors.map encErrorObj)).toStr ++ " " ++ (encJson (.obj d.dmeta)).toStr ++ ")"
+      | .ok d => "ok " ++ udocView d
       | .err => "err"
       | .panic => "panic", "-", true)
   | [.atom "ident", sc, d] =>
